@@ -178,6 +178,25 @@ func genC03(r *Rng, tier string, emit func(Case)) {
 				fb[dpos[j]] = []byte("bio!B~2#")[r.Intn(7)]
 			}
 			e("bsub", "foreign", hs(bvalid), hx(fb))
+			// case changes: 1..4 letters of the data part upper-cased (a mixed-case string must be rejected)
+			cb := []byte(bvalid)
+			lpos := []int{}
+			for j := len(hrp) + 1; j < len(cb); j++ {
+				if cb[j] >= 'a' && cb[j] <= 'z' {
+					lpos = append(lpos, j)
+				}
+			}
+			if len(lpos) > 0 {
+				nc := 1 + r.Intn(4)
+				for _, j := range r.Perm(len(lpos)) {
+					if nc == 0 {
+						break
+					}
+					cb[lpos[j]] -= 32
+					nc--
+				}
+				e("bsub", "case", hs(bvalid), hx(cb))
+			}
 			bc := append([]byte{}, bs...)
 			pat := uint32(r.U64()) & 0x3fffffff
 			if r.Bool() {
